@@ -4,6 +4,7 @@
 //! the projected state with what the specification computed).
 mod common;
 mod corpus;
+mod c01;
 mod c02;
 mod c03;
 mod c04;
@@ -21,6 +22,9 @@ fn main() {
     common::quiet_panics();
     let rest = &args[2..];
     match (args[0].as_str(), args[1].as_str()) {
+        ("C01", "replay") => c01::replay(rest),
+        ("C01", "drive") => c01::drive(rest),
+        ("C01", "one") => c01::one(rest),
         ("C02", "drive") => c02::drive(rest),
         ("C03", "drive") => c03::drive(rest),
         ("C04", "drive") => c04::drive(rest),
